@@ -365,44 +365,123 @@ ELEMENTWISE = {
 }
 
 
+def _partitions(items):
+    """all set partitions of a short list"""
+    if not items:
+        yield []
+        return
+    first, rest = items[0], items[1:]
+    for part in _partitions(rest):
+        yield [[first]] + part
+        for k in range(len(part)):
+            yield part[:k] + [[first] + part[k]] + part[k + 1:]
+
+
 def check_elementwise(chk, v, name, spec):
+    """The function is folded with its library callees inlined; every statement must be element-wise over the whole
+    polynomial.  The statements are then composed symbolically, per coefficient, under EVERY aliasing configuration of the
+    polynomial arguments that the function's own assertions allow (result == poly1, result == poly2, ...): the final
+    value of the result must be the operator-table value of the ORIGINAL operands."""
     fld, op, fn, nsrc = spec
     f = v.fn(name, required=False)
     if f is None:
         return
-    ps, _ = summ.pieces(v, f, hooks=NOINLINE)
-    stores = [p for p in ps if p["kind"] == "store"]
+    ps, _ = summ.pieces(v, f, hooks=summ.InlineLib())
     polys = [p for p in f.params if "Polynomial" in p["t"]]
     ints = [p for p in f.params if p["t"].replace("const ", "") == "int"]
     res = polys[0]["n"]
     srcs = [p["n"] for p in polys[1:]]
-    key = "%s applies '%s' element-wise over the whole polynomial" % (name, op)
+    key = "%s applies '%s' element-wise over the whole polynomial, whichever arguments are the same object" % (name, op)
+    if any(p["kind"] in ("asm", "while", "unknown") for p in ps):
+        chk.broken("%s: construct not recognised" % name)
+    stores = [p for p in ps if p["kind"] == "store"]
+    if not stores:
+        chk.refuted("R5", key, where=f.where, detail="no statement writes the result", variant=v.name)
+        return
+    pnames = [p["n"] for p in polys]
+    psyms = {sym.sym(n): n for n in pnames}
+    Ns = {P(n, "N") for n in pnames}
     problems = []
-    if len(stores) != 1 or any(p["kind"] in ("asm", "while", "unknown") or
-                               (p["kind"] == "call" and not p["eff"].get("noreturn")) for p in ps):
-        problems.append("expected exactly one element-wise statement, found %d stores (%s)" % (len(stores), [p["kind"] for p in ps][:6]))
-    else:
-        s = stores[0]
-        if len(s["loops"]) != 1 or s["guards"]:
-            problems.append("statement is not in a single unguarded loop")
-        else:
-            lp = s["loops"][0]
-            i = lp["var"]
-            Ns = {P(n, "N") for n in [res] + srcs}
-            if lp["lo"] != ZERO or lp["cmp"] != "<" or lp["hi"] not in Ns or lp["step"] != I(1):
-                problems.append("range [%s %s %s) is not [0,N)" % (sym.show(lp["lo"]), lp["cmp"], sym.show(lp["hi"])))
-            ea = sym.idx(P(srcs[0], fld), i) if len(srcs) > 0 else None
-            eb = sym.idx(P(srcs[1], fld), i) if len(srcs) > 1 else None
-            pp = sym.sym(ints[0]["n"]) if ints else None
+    # assertions of the function restrict the admissible aliasing
+    forbidden = set()
+    for p in ps:
+        for c in p.get("pre", []) or []:
+            for st in sym.subterms(c):
+                if st[0] == "op" and st[1] == "!=" and st[2] in psyms and st[3] in psyms:
+                    forbidden.add(frozenset((psyms[st[2]], psyms[st[3]])))
+    for s_ in stores:
+        if len(s_["loops"]) != 1:
+            chk.broken("%s: statement at line %s is not in a single loop" % (name, s_["line"]))
+        lp = s_["loops"][0]
+        if lp["lo"] != ZERO or lp["cmp"] != "<" or lp["hi"] not in Ns or lp["step"] != I(1):
+            problems.append("range [%s %s %s) at line %s is not [0,N)" % (sym.show(lp["lo"]), lp["cmp"], sym.show(lp["hi"]), s_["line"]))
+        elt = s_.get("t", "")
+        if elt and elt.replace("const ", "") not in ("int", "unsigned int"):
+            problems.append("element type %s is not a 32-bit wrapping integer" % elt)
+    pp = sym.sym(ints[0]["n"]) if ints else None
+    nconf = 0
+    if not problems:
+        for part in _partitions(pnames):
+            cls = {n: min(c) for c in part for n in c}
+            if any(len(fs) == 2 and len({cls[x] for x in fs}) == 1 for fs in forbidden):
+                continue
+            nconf += 1
+            init = {c: sym.sym("%s0" % c) for c in set(cls.values())}
+            state = dict(init)
+
+            def truth(g):
+                if g[0] == "un" and g[1] == "!":
+                    t_ = truth(g[2])
+                    return None if t_ is None else (not t_)
+                if g[0] == "op" and g[1] in ("==", "!=") and g[2] in psyms and g[3] in psyms:
+                    same = cls[psyms[g[2]]] == cls[psyms[g[3]]]
+                    return same if g[1] == "==" else (not same)
+                return None
+            bad = None
+            for s_ in stores:
+                tv = [truth(g) for g in s_["guards"]]
+                if any(t_ is None for t_ in tv):
+                    chk.broken("%s: guard %s not decidable from the aliasing configuration" % (name, [sym.show(g) for g in s_["guards"]]))
+                if not all(tv):
+                    continue
+                i = s_["loops"][0]["var"]
+                lv = s_["lv"]
+                if not (lv[0] == "idx" and lv[2] == i and lv[1][0] == "fld" and lv[1][2] == fld and lv[1][1][0] == "idx" and lv[1][1][1] in psyms):
+                    chk.broken("%s: destination %s is not <poly>->%s[i]" % (name, sym.show(lv), fld))
+                dst = cls[psyms[lv[1][1][1]]]
+                m = {}
+                for st in sym.subterms(s_["val"]):
+                    if st[0] == "idx" and st[1][0] == "fld" and st[1][2] == fld and st[1][1][0] == "idx" and st[1][1][1] in psyms:
+                        if st[2] != i:
+                            bad = "reads %s while writing index %s" % (sym.show(st), sym.show(i))
+                        m[st] = state[cls[psyms[st[1][1][1]]]]
+                val = sym.rewrite(s_["val"], m) if m else s_["val"]
+                if s_["op"] == "=":
+                    state[dst] = val
+                elif s_["op"] == "+=":
+                    state[dst] = sym.add(state[dst], val)
+                elif s_["op"] == "-=":
+                    state[dst] = sym.sub(state[dst], val)
+                else:
+                    chk.broken("%s: operator %s" % (name, s_["op"]))
+            ea = init[cls[srcs[0]]] if len(srcs) > 0 else None
+            eb = init[cls[srcs[1]]] if len(srcs) > 1 else None
             want = fn(ea, eb, pp)
-            if s["lv"] != sym.idx(P(res, fld), i) or s["op"] != op or s["val"] != want:
-                problems.append("statement is '%s %s %s', expected '%s %s %s'" % (
-                    sym.show(s["lv"]), s["op"], sym.show(s["val"]), sym.show(sym.idx(P(res, fld), i)), op, sym.show(want)))
-            elt = s.get("t", "")
-            if elt and elt.replace("const ", "") not in ("int", "unsigned int"):
-                problems.append("element type %s is not a 32-bit wrapping integer" % elt)
-    chk.require(not problems, "R5", key, where=f.where, ok="one statement over [0,N) on 32-bit integers", bad="; ".join(problems)[:400],
-                variant=v.name)
+            r0 = init[cls[res]]
+            expect = want if op == "=" else sym.add(r0, want) if op == "+=" else sym.sub(r0, want)
+            got = state[cls[res]]
+            conf = ", ".join("==".join(c) for c in part if len(c) > 1) or "all arguments distinct"
+            if bad:
+                problems.append("with %s: %s" % (conf, bad))
+            elif got != expect:
+                problems.append("with %s: the result becomes %s, the operation denotes %s (operands as they were on entry)" % (
+                    conf, sym.show(got), sym.show(expect)))
+            # a source that is not the result must be left unchanged
+            for sn in srcs:
+                if cls[sn] != cls[res] and state[cls[sn]] != init[cls[sn]]:
+                    problems.append("with %s: the source %s is modified" % (conf, sn))
+    chk.require(not problems, "R5", key, where=f.where, ok="%d statement(s) over [0,N) on 32-bit integers; %d aliasing configuration(s) composed" % (len(stores), nconf),
+                bad="; ".join(problems)[:500], variant=v.name)
     chk.vcount(v.name, "R5.elementwise_functions")
 
 
